@@ -17,6 +17,9 @@ def one(mid):
     meta = json.load(open(os.path.join(d, "meta.json")))
     prop = meta["property"]
     checks = [prop] + EXTRA.get(prop, [])
+    import shutil
+    for old in glob.glob(os.path.join(d, "detected_by_*")):      # replays of an earlier evaluation
+        shutil.rmtree(old, ignore_errors=True)
     t0 = time.time()
     p = subprocess.run([sys.executable, os.path.join(V, "tools", "muteval.py"), d, ",".join(checks)], stdout=subprocess.PIPE, stderr=subprocess.STDOUT, timeout=6 * 3600)
     out = p.stdout.decode("utf-8", "replace")
